@@ -30,10 +30,13 @@ func checkReturnIs(c *Ctx, rule, construct string, f *ssa.Function, k int, want,
 		return
 	}
 	c.useFn(f)
-	t, _, ok := singleReturnTerm(f, k)
 	got := "<several returns>"
+	rets := returnsOf(f)
+	ok := len(rets) == 1 && len(rets[0].Results) > k
 	if ok {
-		got = t.String()
+		tb := newTB(f)
+		tb.NoInline = true // wrappers are judged by the function they call, not by its body
+		got = tb.T(rets[0].Results[k]).String()
 	}
 	c.check(ok && got == want, rule, construct, f.Pos(), okWhy, "returns "+short(got)+", want "+want)
 }
